@@ -1136,6 +1136,13 @@ pub fn c10(ix: &Index) -> Vec<Viol> {
 pub fn c11(ix: &Index) -> Vec<Viol> {
     let mut out = Vec::new();
     let h = ix.h;
+    // a context the library itself returned did not survive its own text form: no remote child can
+    // be created in that trace (the decoder's strictness on foreign text is C12's business)
+    for p in &h.panics {
+        if p.op == "traceparent round trip" && p.msg.starts_with("decode(encode(") {
+            out.push(v("C11", "roundtrip:context-lost", format!("an extracted context did not survive encode_w3c_traceparent / decode_w3c_traceparent: {}", p.msg)));
+        }
+    }
     if names_ambiguous(h) {
         return out;
     }
